@@ -1,4 +1,4 @@
 """ENABLED: properties whose check the integrator has accepted into MANIFEST.json (each carries a REGISTRY dict in
 checks/cXX.py). NOT_APPLICABLE: reason text for properties not claimed."""
-ENABLED = {"C21", "C31", "C16", "C27", "C11", "C22", "C14", "C26", "C28", "C25", "C08", "C32", "C03", "C20", "C19", "C12", "C18", "C17", "C04", "C15", "C23", "C29", "C30", "C06", "C33", "C01", "C02", "C05", "C34"}
+ENABLED = {"C21", "C31", "C16", "C27", "C11", "C22", "C14", "C26", "C28", "C25", "C08", "C32", "C03", "C20", "C19", "C12", "C18", "C17", "C04", "C15", "C23", "C29", "C30", "C06", "C33", "C01", "C02", "C05", "C34", "C13", "C09", "C24", "C10", "C07"}
 NOT_APPLICABLE = {}
